@@ -85,6 +85,27 @@ pub fn search(rng: &mut Rng, budget: u64, fails: &mut Vec<Failure>) {
     for ns in [-1i128, -999_999, -1_000_000, -1_000_001, -NS_DAY - 1, 1, 999_999, -NS_MAX, NS_MAX, -NS_MAX + 1] {
         for f in borrow { check_instant(ns, f, fails); if fails.len() >= 5 { return; } }
     }
+    // fields beyond the i64 range (still valid durations: the total stays below 2^53 s); powers of two times powers of
+    // ten chosen to be exactly representable doubles
+    for (idx, v) in [(5usize, 100_000_000_000_000_000_000i128), (5, 1i128 << 70), (4, 1i128 << 64), (5, -(1i128 << 66)), (3, 1i128 << 60)] {
+        let g = |x: i128| F::try_from(x as f64).ok();
+        let mut fl = [0i128; 6]; fl[idx] = v;
+        let (Some(a), Some(b), Some(c), Some(d4), Some(e), Some(f5)) = (g(fl[0]), g(fl[1]), g(fl[2]), g(fl[3]), g(fl[4]), g(fl[5])) else { continue };
+        let Ok(d) = Duration::new(F::default(), F::default(), F::default(), F::default(), a, b, c, d4, e, f5) else { continue };
+        let tot = fl[0] * 3_600_000_000_000 + fl[1] * 60_000_000_000 + fl[2] * 1_000_000_000 + fl[3] * 1_000_000 + fl[4] * 1000 + fl[5];
+        for ns in [0i128, 43_200_000_000_001] {
+            let t = time_of(ns);
+            for sub in [false, true] {
+                let want = (ns + if sub { -tot } else { tot }).rem_euclid(NS_DAY);
+                let input = format!("time_ns={ns} {} fields(h,mi,s,ms,us,ns)={fl:?}", if sub { "subtract" } else { "add" });
+                match catch_unwind(|| if sub { t.subtract(&d) } else { t.add(&d) }) {
+                    Ok(Ok(r)) => if ns_of(&r) != want { fails.push(Failure { what: "PlainTime add/subtract (field beyond i64)".into(), input, expected: format!("{want}"), observed: format!("{}", ns_of(&r)) }) },
+                    other => fails.push(Failure { what: "PlainTime add/subtract failed".into(), input, expected: format!("{want}"), observed: format!("{:?}", other.map(|x| x.map(|_| ()))) }),
+                }
+            }
+        }
+        if fails.len() >= 5 { return; }
+    }
     for _ in 0..(budget / 10) {
         let ns = rng.range(0, NS_DAY - 1);
         let mag = rng.pick(&[10i128, 1000, 100_000, 4_000_000_000_000_000]);
